@@ -67,7 +67,7 @@ pub fn min_vertex_cut<I>(edges: I, source: usize, sink: usize)
         .flat_map(|&(v, w)| [v, w])
         .collect();
 
-    let offset = vertices.iter().max().unwrap_or(&0) + 1;
+    let offset = vertices.iter().max().unwrap_or(&0).max(&source).max(&sink) + 1;
 
     let x_edges: Vec<_> = std::iter::empty()
         .chain(edges.iter().map(|&(v, w)| (v + offset, w)))
